@@ -612,15 +612,20 @@ class GMMMachine(BaseEstimator):
         if int(version_major) >= 1:
             if hdf5.attrs["writer_class"] != str(cls):
                 logger.warning(f"{hdf5.attrs['writer_class']} is not {cls}.")
-            if hdf5["trainer"] == "map" and ubm is None:
+            trainer = hdf5["trainer"][()]
+            if isinstance(trainer, bytes):
+                trainer = trainer.decode()
+            if trainer == "map" and ubm is None:
                 raise ValueError(
                     "The UBM is needed when loading a MAP machine."
                 )
             self = cls(
                 n_gaussians=hdf5["n_gaussians"][()],
-                trainer=hdf5["trainer"][()],
+                trainer=trainer,
                 ubm=ubm,
-                convergence_threshold=1e-5,
+                convergence_threshold=hdf5["convergence_threshold"][()]
+                if "convergence_threshold" in hdf5
+                else 1e-5,
                 max_fitting_steps=hdf5["max_fitting_steps"][()],
                 weights=hdf5["weights"][...],
                 k_means_trainer=None,
@@ -658,7 +663,7 @@ class GMMMachine(BaseEstimator):
 
     def load(self, hdf5):
         """Overwrites the current state with those in an `HDF5File` object."""
-        new_self = self.from_hdf5(hdf5)
+        new_self = self.from_hdf5(hdf5, ubm=self.ubm)
         self.__dict__.update(new_self.__dict__)
 
     def save(self, hdf5):
